@@ -82,6 +82,8 @@ def gen(seed):
         life = {'notify': rng.random() < 0.3, 'dev': rng.choice(['A', 'A', 'A', 'B']),
                 'dirs': rng.choice(['rw', 'rw', 'ro+rw', 'ro', 'none', 'seed-ro']),
                 'crash': None}
+        if rng.random() < 0.15:
+            life['twin'] = True
         if li > 0 and rng.random() < 0.2:
             # somebody cleans the cache directory (or changes its permissions) after the Crazyflie object was created
             life['vanish'] = {'which': rng.choice(['log', 'param', 'both']), 'how': rng.choice(['removed', 'unreadable']),
@@ -119,6 +121,22 @@ def directed(tier):
                           'knobs': {'line_mean': 0, 'p_stall': 0.0, 'needs_resending': False, 'lat': (0.001, 0.001)},
                           'ops': [{'dev': 'A', 'dirs': 'rw', 'crash': {'at': 'end', 'keep': keep}},
                                   {'dev': 'A', 'dirs': 'rw', 'crash': None}]})
+    # two Crazyflie objects of one process fill the same read-write cache directory at the same moment (two firmwares
+    # with tables of equal size), then each firmware is connected to again with the cache present
+    import copy
+    devb = copy.deepcopy(dev)
+    for t in ('log', 'param'):
+        for i, e in enumerate(devb[t]):
+            e[1] = 'other%d' % i
+    devb['value_seed'] = 99
+    for v in range(24 if tier == 'quick' else 120):
+        n += 1
+        plans.append({'seed': 985000 + n, 'scenario': 'directed-twin-fill', 'devices': {'A': dev, 'B': devb},
+                      'knobs': {'line_mean': [0, 3, 10, 1][v % 4], 'p_stall': [0.0, 0.3][(v // 4) % 2], 'stall_window': 0.002,
+                                'needs_resending': False, 'lat': (0.001, 0.001)},
+                      'ops': [{'dev': 'A', 'dirs': 'rw', 'crash': None, 'twin': True},
+                              {'dev': 'A', 'dirs': 'rw', 'crash': None},
+                              {'dev': 'B', 'dirs': 'rw', 'crash': None}]})
     return plans
 
 
@@ -163,7 +181,12 @@ def execute(ctx):
 
 def run_life(ctx, sim, fs, plan, li, life, complete, Crazyflie):
     devd = plan['devices'][life['dev']]
-    w, devs = common.make_world(ctx, {'cf': devd})
+    twin = life.get('twin')
+    if twin:
+        other = plan['devices']['B' if life['dev'] == 'A' else 'A']
+        w, devs = common.make_world(ctx, {'cf': devd, 'cf2': other})
+    else:
+        w, devs = common.make_world(ctx, {'cf': devd})
     dev = devs['cf']
     dirs = life['dirs']
     ro = rw = None
@@ -184,13 +207,14 @@ def run_life(ctx, sim, fs, plan, li, life, complete, Crazyflie):
     def record_complete():
         # complete contents written in this life (before any crash truncation)
         for path, full in fs.dirty.items():
-            kind = None
-            if path.endswith('%08X.json' % dev.log_crc) and b'LogTocElement' in full:
-                kind = 'log'
-            if path.endswith('%08X.json' % dev.param_crc) and b'ParamTocElement' in full:
-                kind = 'param'
-            if kind and full:
-                complete.setdefault(path, set()).add((kind, full))
+            for d_ in devs.values():
+                kind = None
+                if path.endswith('%08X.json' % d_.log_crc) and b'LogTocElement' in full:
+                    kind = 'log'
+                if path.endswith('%08X.json' % d_.param_crc) and b'ParamTocElement' in full:
+                    kind = 'param'
+                if kind and full:
+                    complete.setdefault(path, set()).add((kind, full))
 
     def on_connected(uri):
         cf = st['cf']
@@ -240,6 +264,20 @@ def run_life(ctx, sim, fs, plan, li, life, complete, Crazyflie):
                     sim.after(0.003, note)
             sim.after(0.001, note)
         cf.open_link('sim://cf')
+        if twin:
+            # a second Crazyflie object of the same process, same cache directories, another firmware, at the same time
+            dev2 = devs['cf2']
+            cf2 = Crazyflie(ro_cache=ro, rw_cache=rw)
+
+            def on_connected2(uri):
+                d = common.compare_log_toc(cf2, dev2) + common.compare_param_toc(cf2, dev2)
+                if d:
+                    ctx.violation('2', 'wrong-table-after-cache', 'life %d, second object: %s' % (li, d[:4]))
+                st['connected2'] = sim.now
+            cf2.connected.add_callback(on_connected2)
+            cf2.connection_failed.add_callback(lambda uri, msg: st.__setitem__('failed2', msg))
+            cf2.open_link('sim://cf2')
+            ctx.probe('two Crazyflie objects share the cache directories')
         at = crash['at'] if crash else 'end'
         if isinstance(at, float):
             P.sim_sleep(at)
@@ -257,6 +295,14 @@ def run_life(ctx, sim, fs, plan, li, life, complete, Crazyflie):
         if 'failed' in st:
             ctx.violation('1', 'connection-failed-with-cache', 'life %d: %s' % (li, str(st['failed'])[:200]))
             return
+        if twin:
+            if not common.wait_until(sim, lambda: 'connected2' in st or 'failed2' in st, BOUND, 0.01):
+                ctx.violation('1', 'connect-never-finished', 'life %d: second object not connected within %g s' % (li, BOUND))
+                return
+            if 'failed2' in st:
+                ctx.violation('1', 'connection-failed-with-cache', 'life %d, second object: %s' % (li, str(st['failed2'])[:200]))
+                return
+            cf2.close_link()
         P.sim_sleep(0.3)
         if vanish and vanish['when'] == 'second-connection' and not crash:
             # same object, second connection: the files of the first one are gone by then
